@@ -445,6 +445,43 @@ func runC11(ctx *Ctx) error {
 		}
 		os.RemoveAll(dir)
 	}
+	// (d) rewriting the read flag of one stored message leaves every other stored message intact,
+	// also when the message carries (from the remote station) the mailbox's private header that
+	// names a file: here the file of ANOTHER stored message
+	for i, same := range []bool{true, false} {
+		dir := filepath.Join(root, fmt.Sprintf("rw%d", i))
+		h0 := mailbox.NewDirHandler(dir, false)
+		h0.Prepare()
+		a := c11Message("FLAGTESTAAA1", 200)
+		b := c11Message("FLAGTESTBBB2", 300)
+		b.Header.Set("X-FilePath", filepath.Join(dir, "in", "FLAGTESTAAA1.b2f"))
+		h0.ProcessInbound(a)
+		h0.ProcessInbound(b)
+		aBefore, _ := os.ReadFile(filepath.Join(dir, "in", "FLAGTESTAAA1.b2f"))
+		h := h0
+		if !same {
+			h = mailbox.NewDirHandler(dir, false) // after a restart
+			h.Prepare()
+		}
+		msgs, err := h.Inbox()
+		cs := map[string]interface{}{"operation": "SetUnread of a stored message whose X-FilePath header names another stored message", "fresh_handler": !same}
+		res.Eval(fmt.Sprintf("flag-rewrite:%v", same), true)
+		res.Count("flag-rewrite")
+		if err != nil {
+			res.Fail(Failure{Kind: "oracle", Site: "folder-does-not-load", Case: cs, Detail: err.Error()})
+			continue
+		}
+		for _, m := range msgs {
+			if m.MID() == "FLAGTESTBBB2" {
+				mailbox.SetUnread(m, false)
+			}
+		}
+		aAfter, _ := os.ReadFile(filepath.Join(dir, "in", "FLAGTESTAAA1.b2f"))
+		if !bytes.Equal(aBefore, aAfter) || len(aBefore) == 0 {
+			res.Fail(Failure{Kind: "oracle", Site: "stored-message-damaged", Case: cs, Detail: "in/FLAGTESTAAA1.b2f changed when the read flag of FLAGTESTBBB2 was rewritten"})
+		}
+		os.RemoveAll(dir)
+	}
 	return nil
 }
 
